@@ -826,6 +826,14 @@ func c06To(t *rapid.T, re *rootEnv, h *history) {
 		src0 = genStruct(t, re, "t0")
 		h.add("TargetReused", "first written from "+describeStruct(re, src0))
 	}
+	// with a reused target, the declared types of the target may also differ from the types the stored
+	// values carry themselves: the target gets a fresh copy of the type tree after the first write, and the
+	// types are removed from that copy only. What governs the elements of a top-level list or map of
+	// messages is the declared element type (elements are rebuilt on every call), so only such faults apply.
+	declaredOnly := reused != 0 && coin(t, 1, 3, "declaredOnly")
+	if declaredOnly {
+		h.add("TypesRedeclared", "the target's type tree is a fresh copy; stored values keep their own complete types")
+	}
 	// the twin goes through the same history without the fault (what a reused target keeps from its
 	// earlier state is C09's business, not this property's)
 	twinO := re.emptyObject()
@@ -861,11 +869,38 @@ func c06To(t *rapid.T, re *rootEnv, h *history) {
 			}
 			st.probe("type-removed-from-reused-target")
 		}
+		if declaredOnly {
+			typ = cloneType(typ).(types.ObjectType)
+			O.AttrTypes = typ.AttrTypes
+			var keep []typeFault
+			for _, f := range fs {
+				if len(f.path) != 2 {
+					continue
+				}
+				switch x := typ.AttrTypes[f.path[0].attr].(type) {
+				case types.ListType:
+					if _, ok := x.ElemType.(types.ObjectType); ok {
+						keep = append(keep, f)
+					}
+				case types.MapType:
+					if _, ok := x.ElemType.(types.ObjectType); ok {
+						keep = append(keep, f)
+					}
+				}
+			}
+			if len(keep) == 0 {
+				return
+			}
+			fs = keep
+			st.probe("type-removed-from-declared-element-type-only")
+		}
 		removed := map[string]bool{}
 		var ffs []fault
 		for _, f := range fs {
 			removeType(typ, f.path)
-			removeTypeInValue(O, f.path)
+			if !declaredOnly {
+				removeTypeInValue(O, f.path)
+			}
 			removed[typePathKey(f.path)] = true
 			st.fault(fTypeGone)
 			ffs = append(ffs, fault{kind: fTypeGone, path: f.path, expect: []expDiag{f.expect}})
